@@ -160,6 +160,9 @@ def run_impl(case):
             extra += "!len"
         if any((devs[j] in reg) != (j in [ident.get(id(x)) for x in reg]) for j in range(len(devs))):
             extra += "!contains"
+        idx = getattr(reg, "_Devices__index", None)     # the anchored state, if it still exists under that name
+        if isinstance(idx, dict) and any(not v for v in idx.values()):
+            extra += "!empty-index-entry"
         toks.append(f"{t}/{state}/{by}{extra}")
     gas1 = [sorted(amap[a] for a in d.group_addresses()) for d in devs]
     pool = ";".join(f"{i}:{'.'.join(map(str, g)) if g else '-'}" for i, g in enumerate(gas0))
@@ -207,7 +210,7 @@ def oracle(case, out):
                 if res != "Eunregistered":
                     return f"{where}: removing an unregistered device gave {res}, expected an error"
         if "!" in by:
-            return f"{where}: len()/in disagree with iteration ({by})"
+            return f"{where}: len()/in disagree with iteration, or an empty index entry remains ({by})"
         if state != _ids(registered):
             return f"{where}: registered devices are [{state}], expected [{_ids(registered)}] (an error must change nothing)"
         exp = ";".join(_ids([d for d in registered if g in uses[d]]) for g in range(naddr))
